@@ -607,6 +607,33 @@ static void doGen(std::stringstream &ss) {
             << " req=" << req << " " << programStr(cr.code) << std::endl;
 }
 
+// parse once, generate k times from the SAME syntax tree (gen takes the tree by value; a front end may well call it again):
+// every generation must give the same result, and that of compile()
+static std::string genSummary(CodegenResult cr) {
+  std::string errs;
+  for (size_t i = 0; i < cr.errors.size(); i++) {
+    if (i) errs += ",";
+    errs += std::to_string((int)cr.errors[i].t) + ":" + hex(cr.errors[i].message) + ":" + hex(cr.errors[i].file) + ":" +
+            std::to_string(cr.errors[i].line);
+  }
+  if (errs.empty()) errs = "-";
+  return std::string("ok=") + (cr.generated_correctly ? "1" : "0") + " errs=" + errs + " " + programStr(cr.code);
+}
+static void doGenN(std::stringstream &ss) {
+  std::string mainf;
+  auto files = readFiles(ss, mainf);
+  int k = 3;
+  ss >> k;
+  ParseResult pr = parse(files, mainf);
+  std::vector<std::string> res;
+  for (int i = 0; i < k; i++) res.push_back(genSummary(gen(pr.a)));
+  pr.a.clear();
+  int differ = -1;
+  for (int i = 1; i < k; i++)
+    if (res[i] != res[0] && differ < 0) differ = i;
+  std::cout << "GENN differ=" << differ << " second=" << hex(differ >= 0 ? res[differ] : std::string("")) << " " << res[0] << std::endl;
+}
+
 // ---------- LR ----------
 // grammar text: N;lhs:sym.sym|lhs:-|...;start;eof;prefix   symbols: tK / nK / e
 struct LRReq {
@@ -994,6 +1021,8 @@ static void *mainLoop(void *) {
       doParse(ss);
     else if (cmd == "GEN")
       doGen(ss);
+    else if (cmd == "GENN")
+      doGenN(ss);
     else if (cmd == "LR")
       doLR(ss);
     else if (cmd == "DETECT")
